@@ -596,6 +596,8 @@ def check_C17(ctx, rep):
 
 
 def check_C14(ctx, rep):
+    small_models2.check_language_helpers(ctx, rep, {n0: ctx.prog.func('language_algorithms.' + n0) for n0 in ('language_no_prefix', 'language_no_extend', 'language_reverse', 'concatenation', 'words_up_to_n')})
+    rep.clauses_decided.append('language_no_prefix, language_no_extend, language_reverse, concatenation and words_up_to_n return the sets their documentation strings define on eleven model languages (the empty language, the empty word alone and among others, a prefix that is not the lexicographic neighbour, chains) (M31, finite model)')
     small_models2.check_dfa_constructions(ctx, rep, {op0: ctx.prog.func('dfa_algorithms.dfa_' + op0) for op0 in ('complement', 'union', 'intersection', 'symmetric_difference', 'reverse', 'no_prefix', 'no_extend')})
     rep.clauses_decided.append('complement, the three products, reversal, the prefix-free and the non-extendable restriction return valid automata with exactly the words up to length 4 of the set operation on model DFAs (a finite language with extensions, a final initial state, the empty language); operands untouched (M21, finite model)')
     small_models2.check_remove_unreachable(ctx, rep, ctx.prog.func('dfa_algorithms.dfa_remove_unreachable_states'))
